@@ -38,6 +38,11 @@ func StartKeygenCommon(taproot bool, group curve.Curve, participants []party.ID,
 		} else {
 			info.ProtocolID = protocolID
 		}
+		// a refresh is a different protocol than a key generation: it gets its own identifier,
+		// so that the two never share a session identifier and reject each other's messages.
+		if privateShare != nil && publicKey != nil {
+			info.ProtocolID += "/refresh"
+		}
 
 		helper, err := round.NewSession(info, sessionID, nil)
 		if err != nil {
